@@ -75,7 +75,8 @@ def build(i, check):
                             Ref("A", "crashed", "error", "output"), Ref("A", "deploy_failed", "error", "error"), Ref("A", "outputs", "error", "reason"), Ref("A", "outputs"), Ref("A", "outputs", "success")]), True)
         if oa == "deployfail" and rng.random() < 0.6:
             # a failed deployment decides all later stages of the step at once, also the enabling ones
-            t = Opt(rng.choice([Ref("A", "disabled", "output", "message"), Ref("A", "enabling", "resolved", "enabled"), Ref("A", "enabling", "resolved"), Ref("A", "starting", "started")]), True)
+            t = Opt(rng.choice([Ref("A", "disabled", "output", "message"), Ref("A", "enabling", "resolved", "enabled"), Ref("A", "enabling", "resolved"), Ref("A", "starting", "started"),
+                                Ref("A", "crashed", "error", "output"), Ref("A", "crashed", "error"), Ref("A", "outputs", "error", "reason"), Ref("A", "outputs")]), True)
         if oa == "late-enabled" and rng.random() < 0.6:
             # the step gets enabled late: its disabled output can then no longer occur, and a member waiting for it is absent
             t = Opt(rng.choice([Ref("A", "disabled", "output", "message"), Ref("A", "disabled", "output")]), True)
@@ -165,6 +166,27 @@ def build_loop_source(rng, i):
     return g, []
 
 
+def matrix_cases():
+    """Every source outcome x every stage output an optional member can wait for x wait/soft, in a workflow output next to a
+    required member from another step: (g, triggers) pairs."""
+    refs = {"success.tag": Ref("A", "outputs", "success", "tag"), "error.reason": Ref("A", "outputs", "error", "reason"), "crashed.output": Ref("A", "crashed", "error", "output"),
+            "crashed": Ref("A", "crashed", "error"), "deploy_failed.error": Ref("A", "deploy_failed", "error", "error"), "disabled.message": Ref("A", "disabled", "output", "message"),
+            "enabling.enabled": Ref("A", "enabling", "resolved", "enabled"), "started": Ref("A", "starting", "started"), "whole-outputs": Ref("A", "outputs")}
+    out = []
+    for oa in ("success", "error", "crash", "deployfail", "disabled", "alt"):
+        for rname, r in sorted(refs.items()):
+            for wait in (True, False):
+                A, B = src_step("A", oa), src_step("B", "success")
+                outcome = {} if oa in ("success", "disabled") else {"A": oa}
+                steps = [A, B]
+                outs = {"direct": {"b": Expr(Ref("B", "outputs", "success", "tag")), "m": Opt(r, wait)}}
+                prog = Program(steps, outs, gen.BASE_INPUT)
+                g = {"program": prog, "scripts": gen.make_scripts(steps, outcome), "input": {"tag": "T1", "flag": True},
+                     "shape": "matrix/%s/%s/A=%s" % ("wait" if wait else "soft", rname, oa), "outcome": outcome, "kind": "matrix", "oa": oa, "ob": "success"}
+                out.append((g, []))
+    return out
+
+
 def finish_seq(res, src, stage="outputs"):
     """Sequence number of the plugin-boundary event after which the referenced stage of the source step is decided:
     the end of the execution (or a failed deployment) for outputs/crashed, the end of the run-time deployment for deploy_failed."""
@@ -243,8 +265,8 @@ def run(check):
                   "a produced alternative and carries its data; non-trivial/distinct = (tag kind, placement, consumer, source outcomes, order)")
     check.assumptions = ["reference semantics of the tags as stated in the property (vlib/ref.py eval_tree)"]
     items = []
-    for i in range(n):
-        g, trig = build(i, check)
+    built = [build(i, check) for i in range(n)] + matrix_cases()
+    for i, (g, trig) in enumerate(built):
         inp = ref.normalise_input(g["program"].input_schema, g["input"])
         sem0 = ref.RefSem(g["program"], g["scripts"], inp)
         r = sem0.result()
